@@ -2,7 +2,12 @@
 
 package transport
 
-import "net"
+import (
+	"net"
+
+	"hop.computer/hop/certs"
+	"hop.computer/hop/keys"
+)
 
 // Read-only accessors for the verification harness (build tag verif).
 
@@ -87,4 +92,48 @@ func (c *Client) VerifSetSendCounter(n uint64) bool {
 	c.ss.count = n
 	c.ss.m.Unlock()
 	return true
+}
+
+// VerifClientHello builds the ClientHello of a client whose ephemeral KEM key
+// pair is kem.
+func VerifClientHello(kem *keys.KEMKeyPair) ([]byte, error) {
+	hs := new(HandshakeState)
+	hs.duplex.InitializeEmpty()
+	hs.duplex.Absorb([]byte(PostQuantumProtocolName))
+	hs.kem = new(kemState)
+	hs.kem.ephemeral = *kem
+	buf := make([]byte, HeaderLen+KemKeyLen+MacLen)
+	n, err := writePQClientHello(hs, buf)
+	return buf[:n], err
+}
+
+// VerifClientAck builds a ClientAck that presents cookie together with the KEM
+// public key kemPub. The transcript is computed over kemPub, the KEM shared
+// secret k and the cookie exactly as a server replays it, so the message is
+// internally consistent whichever key the cookie was minted for.
+func VerifClientAck(kemPub, k, cookie []byte, name certs.Name) ([]byte, error) {
+	pub, err := keys.ParseKEMPublicKeyFromBytes(kemPub)
+	if err != nil {
+		return nil, err
+	}
+	hs := new(HandshakeState)
+	hs.kem = new(kemState)
+	hs.kem.ephemeral.Public = *pub
+	hs.dh = new(dhState)
+	hs.dh.ephemeral.Generate()
+	hs.cookie = cookie
+	hs.certVerify = &VerifyConfig{Name: name}
+	hs.duplex.InitializeEmpty()
+	hs.duplex.Absorb([]byte(PostQuantumProtocolName))
+	hs.duplex.Absorb([]byte{byte(MessageTypeClientHello), Version, 0, 0})
+	hs.duplex.Absorb(kemPub)
+	hs.duplex.Squeeze(hs.macBuf[:])
+	hs.duplex.Absorb([]byte{byte(MessageTypeServerHello), 0, 0, 0})
+	hs.duplex.Absorb(k)
+	hs.duplex.Absorb(cookie)
+	hs.duplex.Squeeze(hs.macBuf[:])
+	hs.RekeyFromSqueeze(PostQuantumProtocolName)
+	buf := make([]byte, HeaderLen+DHLen+KemKeyLen+PQCookieLen+SNILen+MacLen)
+	n, err := hs.writePQClientAck(buf)
+	return buf[:n], err
 }
